@@ -164,6 +164,7 @@ pub fn scenario(idx: usize, seed: u64, reqs_per_task: usize) -> ScenarioResult {
     let sent: Arc<Mutex<HashMap<u64, Option<PeerId>>>> = Default::default();
     let got: Arc<Mutex<HashMap<u64, RespDigest>>> = Default::default();
     let next_id = Arc::new(AtomicU64::new(1));
+    let dropped: Arc<Mutex<HashSet<u64>>> = Default::default();
     let kind = rng.gen_range(0..3u8);
     // ONE layered service; every task (and every clone inside a task) is a clone of it, so whatever
     // the authorizer or the layer share between clones is shared across the 4 worker threads
@@ -189,6 +190,7 @@ pub fn scenario(idx: usize, seed: u64, reqs_per_task: usize) -> ScenarioResult {
         let start = Arc::new(tokio::sync::Barrier::new(ntasks));
         for t in 0..ntasks {
             let (senders, sent, got, next_id, start) = (senders.clone(), sent.clone(), got.clone(), next_id.clone(), start.clone());
+            let dropped = dropped.clone();
             let mut rng = StdRng::seed_from_u64(seed ^ ((t as u64) << 24));
             macro_rules! drive {
                 ($svc:expr) => {{
@@ -214,6 +216,15 @@ pub fn scenario(idx: usize, seed: u64, reqs_per_task: usize) -> ScenarioResult {
                             // readiness of another clone is polled in between
                             let other = (k + 1) % clones.len();
                             let _ = clones[other].ready().await;
+                            if rng.gen_range(0..20) == 0 {
+                                // the caller drops the response future without ever polling it (lost
+                                // select! branch, fire-and-forget): the decision and - if accepted - the
+                                // invocation have happened in call() all the same
+                                let fut = clones[k].ready().await.unwrap().call(req);
+                                drop(fut);
+                                dropped.lock().unwrap().insert(id);
+                                continue;
+                            }
                             let r = clones[k].ready().await.unwrap().call(req).await.unwrap();
                             my_got.push((id, digest(&r)));
                             if i % 64 == 0 {
@@ -240,6 +251,8 @@ pub fn scenario(idx: usize, seed: u64, reqs_per_task: usize) -> ScenarioResult {
     let sent = sent.lock().unwrap();
     let got = got.lock().unwrap();
     let decisions = logs.decisions.lock().unwrap();
+    let dropped = dropped.lock().unwrap();
+    let mut n_dropped = 0u64;
     let invoked = logs.invoked.lock().unwrap();
     let mut problems: Vec<String> = Vec::new();
     let (mut n_acc, mut n_ref, mut n_absent, mut n_listed, mut n_unlisted) = (0u64, 0u64, 0u64, 0u64, 0u64);
@@ -252,6 +265,14 @@ pub fn scenario(idx: usize, seed: u64, reqs_per_task: usize) -> ScenarioResult {
             break;
         };
         let was_invoked = invoked.contains_key(id);
+        if dropped.contains(id) {
+            // response future dropped unpolled: only "invoked iff accepted" can be judged
+            n_dropped += 1;
+            if *accepted != was_invoked {
+                problems.push(format!("request {id} (response future dropped before its first poll) was {} by the authorizer but the wrapped service was {}invoked", if *accepted { "accepted" } else { "refused" }, if was_invoked { "" } else { "not " }));
+            }
+            continue;
+        }
         let Some(resp) = got.get(id) else {
             problems.push(format!("request {id} got no response"));
             break;
@@ -325,6 +346,7 @@ pub fn scenario(idx: usize, seed: u64, reqs_per_task: usize) -> ScenarioResult {
         .count("allowlist_sender_absent", n_absent)
         .count("allowlist_sender_listed", n_listed)
         .count("allowlist_sender_unlisted", n_unlisted)
+        .count("response_futures_dropped_unpolled", n_dropped)
 }
 
 pub fn run(ctx: &Ctx) -> i32 {
